@@ -28,6 +28,42 @@ E["e3x"] = (3104, 3300)
 T3 = ["e0", "e1", "e2", "e3x", "e4a", "e4b"]
 
 
+# a second gene for the pipeline world: U1 (sorted first) and U2 share every intron inside the reads below, U2 has two more introns upstream
+# (outside the reads) and U1 a last exon that ends 500 bp earlier, so the reads belong to U2 alone
+F = {"f00": (6001, 6200), "f0": (6601, 6800), "f1": (7201, 7400), "fm": (7701, 7730), "f2": (8101, 8300), "f3": (8701, 8900),
+     "f4": (9301, 10000), "f4s": (9301, 9500)}
+U2 = ["f00", "f0", "f1", "fm", "f2", "f3", "f4"]
+U1 = ["f1", "fm", "f2", "f3", "f4s"]
+
+
+def add_second_gene(w, reads, delta):
+    from vlib import syn
+    w["chroms"]["chr1"] = 12000
+    w["genes"].append({"id": "G2", "chr": "chr1", "strand": "+", "transcripts": [
+        {"id": "U1", "exons": [list(F[x]) for x in U1]}, {"id": "U2", "exons": [list(F[x]) for x in U2]}]})
+    syn.plant_for_transcripts(w)
+    base = [[7241, 7400]] + [list(F[x]) for x in ("fm", "f2", "f3", "f4")]
+    variants = [(("g2-exact",), base)]
+    b = [list(x) for x in base]
+    b[0][1] += 30
+    del b[1]
+    variants.append((("g2-skip-microexon",), b))
+    for sh in (10, 40, -25):
+        b = [list(x) for x in base]
+        b[2][1] += sh
+        b[3][0] += sh
+        variants.append((("g2-shift", 2, sh), b))
+    for sh in (delta, -delta):
+        b = [list(x) for x in base]
+        b[3][1] += sh
+        variants.append((("g2-jitter", 3, 0, sh), b))
+    for k, (dev, b) in enumerate(variants):
+        nm = "u%d" % k
+        rd = {"name": nm, "chr": "chr1", "blocks": [list(x) for x in b], "clip_right": "A" * 30}
+        reads[nm] = (rd, (dev,), [tuple(x) for x in b])
+        w["reads"].append(rd)
+
+
 def annotation():
     from vlib import syn
     w = {"chroms": {"chr1": 7000}, "genes": [{"id": "G1", "chr": "chr1", "strand": "+", "transcripts": [
@@ -227,6 +263,7 @@ def pipeline_case(args):
                 rd["clip_right"] = "A" * 12
             reads[nm] = (rd, devs, blocks)
     w["reads"] = [v[0] for v in reads.values()]
+    add_second_gene(w, reads, delta)
     if delta_opt is not None:
         delta = delta_opt          # the reads keep the jitter of the preset's menu (+-4/6 and beyond); the tolerance is the explicit one
     dd = os.path.join(scratch, "c14_%s_%s_%d_%d_%s" % (strategy, preset, d, mirror, delta_opt))
@@ -259,7 +296,9 @@ def pipeline_case(args):
             assigned.setdefault(r["read_id"], set()).add(r["isoform_id"])
     iso_introns = {"T1": [(E[T1[i]][1] + 1, E[T1[i + 1]][0] - 1) for i in range(len(T1) - 1)],
                    "T2": [(E[T2[i]][1] + 1, E[T2[i + 1]][0] - 1) for i in range(len(T2) - 1)],
-                   "T3": [(E[T3[i]][1] + 1, E[T3[i + 1]][0] - 1) for i in range(len(T3) - 1)]}
+                   "T3": [(E[T3[i]][1] + 1, E[T3[i + 1]][0] - 1) for i in range(len(T3) - 1)],
+                   "U1": [(F[U1[i]][1] + 1, F[U1[i + 1]][0] - 1) for i in range(len(U1) - 1)],
+                   "U2": [(F[U2[i]][1] + 1, F[U2[i + 1]][0] - 1) for i in range(len(U2) - 1)]}
     annotated_sites_l = set(i[0] for v in iso_introns.values() for i in v)
     annotated_sites_r = set(i[1] for v in iso_introns.values() for i in v)
     changed = 0
@@ -291,7 +330,7 @@ def pipeline_case(args):
         iso_l = set(i[0] for t in assigned.get(nm, ()) for i in iso_introns[t])
         iso_r = set(i[1] for t in assigned.get(nm, ()) for i in iso_introns[t])
         tol = max(delta, 60)
-        jitter_only = all(x[0] == "jitter" for x in devs) and not flags[1]
+        jitter_only = all(x[0] in ("jitter", "g2-jitter") for x in devs) and not flags[1]
         if jitter_only:
             tol = delta           # nothing but splice-site jitter and no intron-shift correction: only the fuzzy-junction correction applies
         for i in range(len(cb) - 1):
